@@ -79,8 +79,8 @@ theorem C24_light_min_max_over (H : OpsOK) (Q : QueriesOK) (anno : Nat → SI) (
 
 /-! ## with the proved interval operations discharged
 
-`add, sub, neg, not, and, or, xor, concat, zero_extend, sign_extend, extract, udiv, shl, lshr`, the join of `If`, and the eight
-orderings are proved (C21, C22), so for these no hypothesis is needed.  `OpsRest` (mul, urem, ashr, the meet behind `==`/`!=`) is
+`add, sub, neg, not, and, or, xor, concat, zero_extend, sign_extend, extract, udiv, shl, lshr, ashr`, the join of `If`, and the
+eight orderings are proved (C21, C22), so for these no hypothesis is needed.  `OpsRest` (mul, urem, the meet behind `==`/`!=`) is
 consulted only if the AST uses one of them.  ASTs here have a value at every node (`DefBV`); the annotations are in the form
 the constructor returns (`Nrm`, which is the only form Python holds), and the induction shows every intermediate abstract
 value has it too — that is what the signed orderings need. -/
@@ -95,7 +95,7 @@ theorem C24_convert_sound_rest (anno : Nat → SI) (env : Nat → Nat)
   ⟨g.1.1, g.1.2, (g.2 v hv).1⟩
 
 /-- **unconditional** for ASTs built from the proved operations: variables with annotations, constants, `+ - neg ~ & | ^`,
-`ZeroExt`, `SignExt`, `Extract`, `Concat`, `/u`, `<<`, `LShR`, `If`, the unsigned and signed orderings and the Boolean
+`ZeroExt`, `SignExt`, `Extract`, `Concat`, `/u`, `<<`, `LShR`, `>>` (arithmetic), `If`, the unsigned and signed orderings and the Boolean
 connectives -/
 theorem C24_fragment_sound (anno : Nat → SI) (env : Nat → Nat)
     (hctx : ∀ i, (anno i).WF ∧ (anno i).mem (env i)) (hnrm : ∀ i, Nrm (anno i))
